@@ -188,6 +188,16 @@ func c03Case(c *fw.Case) {
 							break
 						}
 					}
+					// the suffix with letters of the namespace glued in front of it (or behind) is another, unknown suffix
+					for _, junk := range []string{"d", "n", "ion", "dino", "i"} {
+						c.Count("suffix-decorated-resolutions", 2)
+						c.Evals(2)
+						for _, bad := range []string{"did:ion:" + junk + op19.UniqueSuffix + ":" + canon, "did:ion:" + op19.UniqueSuffix + junk + ":" + canon} {
+							if _, jerr := hd.ResolveDocument(bad); jerr == nil {
+								c.Failf("suffix-alias-resolved", map[string]interface{}{"did": good, "resolved": bad}, "a long-form DID whose suffix is the real one with %q glued to it resolves", junk)
+							}
+						}
+					}
 					alias := nonCanonicalSpelling(r, op19.UniqueSuffix)
 					c.Count("suffix-alias-resolutions", 1)
 					c.Evals(1)
